@@ -104,6 +104,8 @@ BinaryForms == {F(n, "expr", 2, FALSE) : n \in BinOps} \cup {F(n, "expr", 2, TRU
 EnterForms ==
   { "taint_ctor_rawptr", "taint_init_rawptr", "taint_assign_rawptr", "vol_assign_rawptr", "vol_assign_rawfn",
     "vol_assign_arr_rawptr", "taint_assign_rawfn", "taint_ctor_rawcharp", "vol_assign_rawvoidp",
+    "taint_ctor_rawpp", "taint_init_rawpp", "taint_assign_rawpp", "taint_ctor_rawvpp", "taint_ctor_rawccpp",
+    "taint_ctor_rawvoidp",
     "invoke_rawptr", "invoke_rawfn", "invoke_plain_struct", "invoke_foreign_tainted", "invoke_foreign_ptr",
     "invoke_foreign_callback", "invoke_wrong_arity", "invoke_callback_wrong_type", "invoke_tainted_fn_wrong_type",
     "invoke_arr_rawptr", "invoke_rawcharp",
